@@ -47,7 +47,9 @@ Fixpoint resolve_walk (fuel : nat) (c : cursor) (seen forked : list block) (prev
 Definition resolver_step (c : cursor) (pass : bool) (forked : list block) (s : rstate) (b : block)
   : rstate * list event * rres :=
   if r_resolved s then (s, [file_event SNewIrr b], RsOk) else
-  if pass && (bnum b <=? rn (cu_lib c)) then (s, [file_event SNewIrr b], RsOk) else
+  if pass && (bnum b <=? rn (cu_lib c)) then
+    (* fix: a target cursor on a final block is resolved when that block is passed through *)
+    (mkRS (r_seen s) (bid b =? ri (cu_blk c)), [file_event SNewIrr b], RsOk) else
   if bnum b <? rn (cu_blk c) then (mkRS (r_seen s ++ [b]) false, [], RsOk) else
   let seen := r_seen s ++ [b] in
   if bid b =? ri (cu_blk c) then
